@@ -5,6 +5,7 @@
        -> groups "p.t.n.k,..|p.t.n.k,..;.."
    E c*            -> escaped codes
    L mode c*       -> mode 1 = path, 0 = value: "FAIL" | toks "#" rest
+   R esc {n c*}(out action input) ndeps {n c*}* {n c*}(imports module) -> codes of render
    B c*            -> parse_build: "FAIL" | outs/rule/ins/implicit/bindings "#" rest *)
 open Plan_model
 let rec pos_of_int n = if n = 1 then XH else if n land 1 = 0 then XO (pos_of_int (n lsr 1)) else XI (pos_of_int (n lsr 1))
@@ -80,6 +81,14 @@ let () =
          (match (if m = 1 then lex_path s else lex_value s) with
           | LFail -> print_endline "FAIL"
           | LDone (ts, rest) -> print_endline (toks_s ts ^ "#" ^ codes_s rest))
+       | "R" ->
+         let esc = next () <> 0 in
+         let rd () = let k = next () in List.init k (fun _ -> n_of_int (next ())) in
+         let o = rd () in let a = rd () in let inp = rd () in
+         let nd = next () in let ds = List.init nd (fun _ -> rd ()) in
+         let im = rd () in let md = rd () in
+         print_endline (codes_s (render esc { t_out = o; t_action = a; t_input = inp; t_deps = ds;
+                                              t_imports = im; t_module = md }))
        | "B" ->
          let s = rest_codes () in
          (match parse_build s with
